@@ -96,13 +96,16 @@ func H_C16_restart() {
 	wp.Submit(func() { ran.Add(1) })
 	wp.Shutdown()
 	verifrt.MustFinish()
-	wp.ShutdownComplete.Wait()
-	wp.PendingTasksCounter.WaitIsZero()
-	verifrt.Assert(ran.Load() == 1, "a task accepted before Shutdown (no cancel option) was never run")
+	if verifrt.Choose("restartAtOnce", 2) == 0 {
+		wp.ShutdownComplete.Wait()
+		wp.PendingTasksCounter.WaitIsZero()
+		verifrt.Assert(ran.Load() == 1, "a task accepted before Shutdown (no cancel option) was never run")
+	}
+	// Start waits for the previous generation to finish by itself: restarting while it is still draining is fine
 	wp.Start()
 	wp.Submit(func() { ran.Add(1) })
 	wp.PendingTasksCounter.WaitIsZero()
-	verifrt.Assert(ran.Load() == 2, "a task submitted after a restart was not run")
+	verifrt.Assert(ran.Load() == 2, "a task submitted after a restart was not run (or a task of the previous generation was lost)")
 	wp.Shutdown()
 	wp.ShutdownComplete.Wait()
 	verifrt.Cover("restarted")
@@ -128,7 +131,13 @@ func H_C16_group() {
 	if !early {
 		wg.Wait()
 	}
+	// a task that is pending when WaitChildren is called (the pool's counter already shows it) must have finished by
+	// the time WaitChildren returns, also while Submit is still on its way back
+	pendingAtCall := p.PendingTasksCounter.Get() >= 1
 	g.WaitChildren()
+	if pendingAtCall {
+		verifrt.Assert(ran.Load() == 1, "Group.WaitChildren returned while a task that the pool already counted as pending had not finished")
+	}
 	// the counter chain pool -> sub-group -> group: if the pool has pending tasks, the group must see a pending child
 	if !early {
 		verifrt.Assert(p.PendingTasksCounter.Get() == 0 && ran.Load() == 1, "Group.WaitChildren returned while a pool below the group still had pending tasks")
@@ -140,6 +149,31 @@ func H_C16_group() {
 	g.Shutdown()
 	p.ShutdownComplete.Wait()
 	verifrt.Assert(g.IsShutdown() && sub.IsShutdown() && !p.IsRunning(), "Group.Shutdown did not shut down the pools and groups below it")
+}
+
+// H_C16_group_window: Submit racing with WaitChildren at a higher pre-emption bound and nothing else: a task that
+// the pool already counts as pending when WaitChildren is called has finished when it returns (the pool's counter
+// and the group's view of it change in one step).
+//
+//verif:h prop=C16 preempt=2/3 cover=pending-at-call,idle-at-call runs=30000000 timeout=280/900 steps=400000
+func H_C16_group_window() {
+	g := NewGroup("g")
+	p := g.CreatePool("p", WithWorkerCount(1))
+	var ran atomic.Int32
+	var wg sync.WaitGroup
+	wg.Add(1)
+	go func() { defer wg.Done(); verifrt.MustFinish(); p.Submit(func() { ran.Add(1) }) }()
+	verifrt.MustFinish()
+	pendingAtCall := p.PendingTasksCounter.Get() >= 1
+	g.WaitChildren()
+	if pendingAtCall {
+		verifrt.Cover("pending-at-call")
+		verifrt.Assert(ran.Load() == 1, "Group.WaitChildren returned while a task that the pool already counted as pending had not finished")
+	} else {
+		verifrt.Cover("idle-at-call")
+	}
+	wg.Wait()
+	p.PendingTasksCounter.WaitIsZero()
 }
 
 // H_C16_group_tree: a three-level group tree; WaitChildren on the middle group returns only when the pool below
